@@ -19,7 +19,8 @@ EXTENDS Integers, Sequences, FiniteSets, TLC
 
 CONSTANTS Conns
 
-VARIABLES st,        \* st[c] \in {"closed", "synrcvd", "estab", "closing"}
+VARIABLES st,        \* st[c] \in {"closed", "synrcvd", "estab", "closing", "gone"}; "gone": the client completed
+                     \* its close (ACK after its FIN) or aborted it (RST): the listener may forget the connection
           rcvd,      \* bytes received in order from c
           finSeen,   \* the client's FIN has been received
           lastSeq    \* highest seqRel emitted to c
@@ -52,7 +53,16 @@ Syn(c, E) ==
 Ack(c, E) ==
   /\ st[c] \in {"synrcvd", "estab", "closing"}
   /\ AllOK(E, rcvd, finSeen, lastSeq)
-  /\ st' = [st EXCEPT ![c] = IF @ = "synrcvd" THEN "estab" ELSE @]
+  /\ st' = [st EXCEPT ![c] = IF @ = "synrcvd" THEN "estab" ELSE IF @ = "closing" THEN "gone" ELSE @]
+  /\ lastSeq' = NewLast(E)
+  /\ UNCHANGED <<rcvd, finSeen>>
+
+\* the client aborts a connection it already closed: nothing has to be emitted, the record may go - and the
+\* other connections must go on being served (AllOK is evaluated for whatever is emitted to them)
+Rst(c, E) ==
+  /\ st[c] = "closing"
+  /\ AllOK(E, rcvd, finSeen, lastSeq)
+  /\ st' = [st EXCEPT ![c] = "gone"]
   /\ lastSeq' = NewLast(E)
   /\ UNCHANGED <<rcvd, finSeen>>
 
@@ -76,5 +86,5 @@ Fin(c, n, E) ==
   /\ st' = [st EXCEPT ![c] = "closing"]
   /\ lastSeq' = NewLast(E)
 
-TypeOK == \A c \in Conns : rcvd[c] >= 0 /\ (finSeen[c] => st[c] = "closing")
+TypeOK == \A c \in Conns : rcvd[c] >= 0 /\ (finSeen[c] => st[c] \in {"closing", "gone"})
 =============================================================================
